@@ -20,6 +20,7 @@ from lerax.callback import AbstractCallback, AbstractCallbackState, AbstractCall
 from lerax.policy import MLPSACPolicy
 from vlib import mdp
 from vlib.doubles import StepCount, TableACPolicy, TableQPolicy
+from vlib.algos import transplant
 from vlib.runner import Ctx
 
 
@@ -150,16 +151,20 @@ def oracle_dqn(ctx: Ctx, case):
 
 
 # ----------------------------------------------------------------------------- SAC histories
+def _sac_kw(E, S, pf, autotune):
+    return dict(buffer_size=32, learning_starts=2, num_envs=E, num_steps=S, batch_size=2, policy_frequency=pf, autotune=autotune, q_width_size=8, q_depth=1, policy_lr=1e-2, q_lr=1e-2, tau=0.5)
+
+
 @functools.lru_cache(maxsize=None)
 def _sac(E, S, pf, autotune):
-    return SAC(buffer_size=32, learning_starts=2, num_envs=E, num_steps=S, batch_size=2, policy_frequency=pf, autotune=autotune, q_width_size=8, q_depth=1, policy_lr=1e-2, q_lr=1e-2, tau=0.5)
+    return SAC(**_sac_kw(E, S, pf, autotune))
 
 
 def oracle_sac(ctx: Ctx, case):
     E, S, pf, autotune, tau = case["E"], case["S"], case["pf"], case["autotune"], case["tau"]
     env, spec = _mdp_env(case, box=True)
     policy = MLPSACPolicy(env, feature_size=4, width_size=8, depth=1, key=jr.key(case["key"] + 999))
-    algo = eqx.tree_at(lambda a: a.tau, _sac(E, S, pf, autotune), jnp.asarray(tau))
+    algo = transplant(_sac(E, S, pf, autotune), _sac_kw(E, S, pf, autotune), tau=float(tau))
     cb = the_callback()
     state = _reset(algo, env, policy, jr.key(case["key"]), cb)
     tags = {"algo": "SAC"}
